@@ -17,7 +17,7 @@ import ast
 import torch
 from torch.autograd import Function
 
-from ..qtensor import QTensor, qfallback
+from ..qtensor import QTensor, functional_variant, qfallback
 from ..qtype import qint4, qtypes
 from .group import ungroup
 from .packed import PackedTensor
@@ -186,10 +186,32 @@ class QBitsTensor(QTensor):
         from .qbits_ops import get_qbitstensor_op_dispatch
 
         # Do not use directly op, but rather its overload
-        op = op.overloadpacket
+        overload, op = op, op.overloadpacket
         # Look for a dispatched op accepting QBitsTensor inputs
         qdispatch = get_qbitstensor_op_dispatch(op)
         if qdispatch is not None:
             return qdispatch(*args, **kwargs)
+        if type(args[0]) == QBitsTensor:
+            functional = functional_variant(overload)
+            if functional is not None:
+                # In-place operation: the fallback would only modify a dequantized copy of the Tensor
+                return args[0]._update(functional(*args, **(kwargs or {})))
         # No dispatch available: qfallback
         return qfallback(op, *args, **kwargs)
+
+    def _update(self, t):
+        """Replace the content of the Tensor by the quantized content of a Tensor of the same shape"""
+        from ..qweight import quantize_weight
+
+        if t.shape != self.shape:
+            raise NotImplementedError("In-place operations that modify the shape of a QBitsTensor are not supported.")
+        if isinstance(t, QTensor):
+            t = t.dequantize()
+        t = quantize_weight(t.to(self.dtype), self.qtype, self.axis, self._group_size)
+        if type(t) != QBitsTensor:
+            t = t.qbits_tensor()
+        # The inner tensors might be shared with other quantized tensors: they must not be modified
+        self._data = t._data
+        self._scale = t._scale
+        self._zeropoint = t._zeropoint
+        return self
